@@ -97,6 +97,8 @@ def wrap(owner, name, post=None, pre=None, tag=None, is_method=True, outermost_o
             call.result = orig(*args, **kwargs)
         except BaseException as e:  # noqa: BLE001 - recorded, re-raised
             call.exc = e
+            if type(e).__name__ in ("CaseTimeout", "KeyboardInterrupt", "SystemExit", "MemoryError"):
+                raise  # the harness's own watchdog (wall clock) is never an observation about the code: inconclusive
             if post is not None:
                 with quiet():
                     post(call)
